@@ -18,7 +18,7 @@ def main():
 
 
 def run_set(C, filt):
-    for key, fc in C.fns.items():
+    for key, fc in list(C.fns.items()):
         if not fc.verified or filt not in key or (C.only_verify is not None and key not in C.only_verify):
             continue
         r = verify_function(C, key, {})
